@@ -4,6 +4,7 @@
 # VERIF_REPO names another copy of the repository (used only to evaluate seeded changes in scratch
 # worktrees while /repo itself is busy); the registered commands never set it.
 ID="$1"; TIER="${2:-quick}"; shift; shift
+OLDPWD_CALLER=$(pwd)
 ROOT=$(cd "$(dirname "$0")/.." && pwd)
 export VERIF_ROOT="$ROOT"
 export GOPROXY=off
@@ -19,5 +20,11 @@ export GOFLAGS="-mod=mod -modfile=$S/go.mod"
 if ! go build -tags verif -o "$S/driver" ./cmd/driver > "$S/build.log" 2>&1; then
   echo "MACHINERY-FAILURE property=$ID cannot build the harness against $VERIF_REPO:"; cat "$S/build.log"; exit 2
 fi
-cd "$ROOT" || exit 2
+# The driver (and its workers) run with the scratch directory as their working directory: whatever a misbehaving
+# gtree creates relative to "." lands there and is removed with it, not in /verif.  A relative --replay path is
+# resolved against the directory the script was called from.
+if [ "$1" = "--replay" ] && [ -n "$2" ]; then
+  case "$2" in /*) ;; *) set -- --replay "$OLDPWD_CALLER/$2" ;; esac
+fi
+mkdir -p "$S/cwd" && cd "$S/cwd" || exit 2
 TMPDIR="$S" "$S/driver" "$ID" "$@"
